@@ -4,6 +4,8 @@ For property P:
   * every confirmed seeded change under /verif/seeded/*/ whose meta.json names P (a realistic breakage written by an independent
     sub-agent, confirmed at run time when it was filed) is applied to a scratch copy of the *current* /repo tree; the quick rules
     must report a VIOLATION on it;
+  * every checker-regression mutant under /verif/mutants/*/ that lists P (a one-construct breakage written together with the rule it
+    exercises, kept so that the rule cannot silently go vacuous) is treated like a seed;
   * every benign twin under /verif/twins/*/ that lists P (a behaviour-preserving re-spelling) is applied likewise; the quick rules
     must stay silent on it.
 Nothing from the repository is executed: the variants are only parsed and analysed, exactly like the real tree.  A patch that no
@@ -47,6 +49,14 @@ def _variants(prop):
         meta = json.load(open(mp))
         if prop in meta.get("properties", []):
             out.append(("twin", name, os.path.join(td, name, "patch.diff")))
+    md = os.path.join(HERE, "mutants")
+    for name in sorted(os.listdir(md)) if os.path.isdir(md) else []:
+        mp = os.path.join(md, name, "meta.json")
+        if not os.path.isfile(mp):
+            continue
+        meta = json.load(open(mp))
+        if prop in meta.get("properties", []):
+            out.append(("seed", "mutant:" + name, os.path.join(md, name, "patch.diff")))
     # generated twins: whole-tree behaviour-preserving rewrites
     out.append(("twin", "generated:ruff-format", "@ruff"))
     out.append(("twin", "generated:ast-roundtrip", "@roundtrip"))
